@@ -2,16 +2,9 @@
 Tie A (C14): the endless `for` of `varint_u64_length` as clang reads it ends within ten rounds with the model's length.
 -/
 import Ufw.Gen.VarintLoops
-import Ufw.Model.Varint
-import Ufw.Lemmas.Varint
+import Ufw.Tie.VarintLoops.Common
 namespace Ufw.Tie.VarintLoops
 open Ufw.Tie.CPre
-
-theorem shr7 (n : BitVec 64) : (n >>> ((7#32)).toNat).toNat = n.toNat / 128 := by
-  have h7 : (7#32).toNat = 7 := by decide
-  rw [h7, BitVec.toNat_ushiftRight, Nat.shiftRight_eq_div_pow]
-
-theorem sx0' : (sx 64 (0#32)) = 0#64 := by decide
 
 theorem length_loop : ∀ (k : Nat) (fuel : Nat) (n octets : BitVec 64),
     n.toNat < 128 ^ k → k ≤ fuel → 0 < k →
